@@ -96,7 +96,7 @@ summary is one the tree can produce (sums ≤ count < 2^53, no division by zero)
 
 /-- `get_merge_accept_fn(name, tol)(thr, new_ls, new_n, old_ls, nom_ls, old_n, nom_n)` -/
 def codeAccept (expf : Rat → Rat) (name : String) (tol thr : Rat) (new old nom : Summary) (w w' w'' : W) : PV :=
-  callObj expf (BBGen.get_merge_accept_fn expf (PV.str name) (PV.flt (some tol))) (PV.flt (some thr))
+  BBGen.MergeAcceptFunction_call expf (BBGen.get_merge_accept_fn expf (PV.str name) (PV.flt (some tol))) (PV.flt (some thr))
     (PV.arr w new.ls) (PV.int new.n) (PV.arr w' old.ls) (PV.arr w'' nom.ls) (PV.int old.n) (PV.int nom.n)
 
 /-- the translated code computes the model's `accept`, for every criterion, tolerance, threshold -/
